@@ -151,9 +151,9 @@ pub fn plan_for(prop: &str, tier: &str) -> Plan {
         }
         "C16" => {
             p.scenarios = if q {
-                sc(&[("lease", 1), ("lease-hb2", 1), ("elect-pv", 1), ("elect-pv-four", 0), ("elect-pv-four", 1), ("elect-pv-prio", 1), ("elect-pvcq", 1), ("lease", 2), ("lease-req", 1), ("elect-pvcq-dead1-minx", 0), ("lease5", 0)])
+                sc(&[("lease", 1), ("lease-stalegrant", 0), ("lease-hb2", 1), ("elect-pv", 1), ("elect-pv-four", 0), ("elect-pv-four", 1), ("elect-pv-prio", 1), ("elect-pvcq", 1), ("lease", 2), ("lease-req", 1), ("elect-pvcq-dead1-minx", 0), ("lease5", 0)])
             } else {
-                sc(&[("lease", 1), ("lease-hb2", 1), ("elect-pv", 1), ("elect-pv-four", 0), ("elect-pv-four", 1), ("elect-pv-prio", 1), ("elect-pvcq", 1), ("lease", 2), ("lease-req", 1), ("elect-pvcq-dead1-minx", 0), ("lease5", 0), ("lease", 3), ("lease-hb2", 3), ("elect-pvcq", 3), ("lease-req", 2), ("lease5", 1), ("lease", 4)])
+                sc(&[("lease", 1), ("lease-stalegrant", 0), ("lease-hb2", 1), ("elect-pv", 1), ("elect-pv-four", 0), ("elect-pv-four", 1), ("elect-pv-prio", 1), ("elect-pvcq", 1), ("lease", 2), ("lease-req", 1), ("elect-pvcq-dead1-minx", 0), ("lease5", 0), ("lease", 3), ("lease-hb2", 3), ("elect-pvcq", 3), ("lease-req", 2), ("lease5", 1), ("lease", 4)])
             };
             p.required_stats = vec![Stat::PreVoteDelivered, Stat::PreVotesGranted, Stat::TermRaises];
             p.explanation = "explicit-state exploration; (a) term and vote unchanged over every delivered MsgRequestPreVote; (b) with pre_vote every term raise justified by the monitor's own tally of delivered grants, a peer's higher term or MsgTimeoutNow; (c) LEASE driver: all behaviours of the minority (ticks, campaigns, crash, restart, stale and duplicated traffic) against a majority in lock-step: leader keeps leading, majority keeps its term".into();
